@@ -150,6 +150,66 @@ def h_seq(ctx, shared):
     ctx.prop("ids_distinct", len({int(v) if not symex.is_sym(v) else i for i, v in enumerate(seen)}) == len(seen))
 
 
+def h_concurrent(ctx, reuse):
+    """two handlers of one entity (one sequence-number provider) run transactions that overlap in time -
+    fresh, or after each of them completed an earlier transaction: every PDU carries the transaction id,
+    destination and mode of its own transaction"""
+    w = World(ctx)
+    ids = Ids(2, 2)
+    L = 4
+    rig_s = []
+    for i in range(2):
+        r = SrcRig(w, ids, mode=UNACK, closure=False, seg_len=L, max_packet_len=64)
+        r.fs.add_source_file("/src/file.bin", 2 * L)
+        r.table.add_config(rigs.remote_cfg(ids.other_entity, seg_len=L, max_packet_len=64, mode=UNACK, closure=True,
+                                           cktype=ChecksumType.CRC_32C))
+        rig_s.append(r)
+    rig_s[1].seq = rig_s[0].seq
+    rig_s[1].h.seq_num_provider = rig_s[0].seq
+    if reuse:
+        for r in rig_s:  # one complete transaction each, one after the other
+            o = r.put()
+            for _ in range(8):
+                if r.idle and o.call != ("put",):
+                    break
+                o = r.sm()
+                if o.exc is not None:
+                    raise o.exc
+            if not r.idle:
+                raise symex.HarnessError("first transaction did not complete")
+        ctx.covered("handlers_reused")
+    # overlapping transactions: an acknowledged one to the usual peer, one to another entity with the MIB defaults
+    order = ctx.pick("order", ["put1-put2", "put1-sm-put2"])
+    want = [dict(dst=ids.dst.value, mode=ACK), dict(dst=ids.other_entity.value, mode=UNACK)]
+    out = [[], []]
+    o = rig_s[0].put(mode=ACK)
+    ctx.prop("accepted", o.exc is None and o.ret is True)
+    if order == "put1-sm-put2":
+        out[0] += rig_s[0].sm().pdus
+    o = rig_s[1].put(dest_id=ids.other_entity)
+    ctx.prop("accepted", o.exc is None and o.ret is True)
+    tids = [None, None]
+    for _ in range(5):
+        for i in (0, 1):
+            o = rig_s[i].sm()
+            ctx.prop("no_exception", o.exc is None, lambda: {"sig": rigs.exc_sig(o.exc)})
+            out[i] += o.pdus
+            if tids[i] is None and rig_s[i].h.transaction_id is not None:
+                tids[i] = rig_s[i].h.transaction_id
+    ctx.prop("ids_distinct", tids[0] is not None and tids[1] is not None
+             and tids[0].seq_num.value != tids[1].seq_num.value,
+             lambda: {"sig": "overlapping transactions share a sequence number"})
+    for i in (0, 1):
+        ctx.prop("stream_complete", [pdu_kind(p) for p in out[i]] == ["MD", "FD", "FD", "EOF"],
+                 lambda: {"sig": f"handler {i}: {[pdu_kind(p) for p in out[i]]}"})
+        for p in out[i]:
+            ctx.prop("pdu_carries_own_transaction",
+                     p.transaction_seq_num.value == tids[i].seq_num.value and p.dest_entity_id.value == want[i]["dst"]
+                     and p.transmission_mode == want[i]["mode"] and p.source_entity_id.value == ids.src.value,
+                     lambda: {"sig": f"handler {i}: {pdu_kind(p)} with sequence number {p.transaction_seq_num.value}, "
+                                     f"destination {p.dest_entity_id.value}, mode {int(p.transmission_mode)}"})
+
+
 def plan(tier):
     q = tier == "quick"
     specs = [Spec("admission-and-parameters", "vf.harness.c19:h_admission", {}, twin_share=0.1,
@@ -161,11 +221,15 @@ def plan(tier):
     specs.append(Spec("sequence-numbers/one-handler", "vf.harness.c19:h_seq", {"shared": False}, twin_share=1.0))
     specs.append(Spec("sequence-numbers/two-handlers-one-provider", "vf.harness.c19:h_seq", {"shared": True},
                       twin_share=1.0))
+    for reuse in (False, True):
+        specs.append(Spec(f"overlapping-transactions/two-handlers/{'reused' if reuse else 'fresh'}",
+                          "vf.harness.c19:h_concurrent", {"reuse": reuse}, twin_share=1.0,
+                          obligations=["handlers_reused"] if reuse else []))
     return specs
 
 
 BOUNDS = {
-    "quick": "complete truth table request mode {None, ACK, UNACK} x request closure {None, T, F} x MIB mode x MIB closure x source file exists x destination known, with file size, max_file_segment_len and max_packet_len symbolic; premature put request before each of the first M+3 calls of a running transaction (M=2 segments, both modes, closure on/off), compared with the undisturbed run; three transactions on one handler and on two handlers sharing a provider with start values 0/5/1000/65000",
+    "quick": "complete truth table request mode {None, ACK, UNACK} x request closure {None, T, F} x MIB mode x MIB closure x source file exists x destination known, with file size, max_file_segment_len and max_packet_len symbolic; premature put request before each of the first M+3 calls of a running transaction (M=2 segments, both modes, closure on/off), compared with the undisturbed run; three transactions on one handler and on two handlers sharing a provider with start values 0/5/1000/65000; two handlers with one provider running overlapping transactions (to two remote entities, modes differ), fresh and after an earlier complete transaction each",
     "thorough": "M=3",
 }
 OUTSIDE = "sequence number wrap-around; put requests with TLV options; id widths other than (2,2) (C07)"
